@@ -517,11 +517,19 @@ def run(ctx):
         runs.append(configs(small, 10 ** 6, "edge", 10))
         runs.append(configs(small + big, 1, "grid", 10 ** 6))
     ntab = 0
-    for cfgs in runs:
-        r = ctx.tlc("MCPlateCarree", extra={"MCPlateCarree.tla": mc_module(cfgs)}, cfg_text=CFG, workers=8, timeout=3000)
+    # the TLC runs are independent: started together (three at a time, the replay overlapping the later ones), used in order
+    from concurrent.futures import ThreadPoolExecutor
+
+    def run_tlc(cfgs):
+        r = ctx.tlc("MCPlateCarree", extra={"MCPlateCarree.tla": mc_module(cfgs)}, cfg_text=CFG, workers=4, timeout=3000)
         recs = sorted(r.json_lines("T"), key=lambda q: (q["nx"], q["ny"], q["g"], q["mode"], q["v"]))    # TLC prints in worker order
         if len(recs) != len(cfgs):
             ctx.machinery("TLC emitted %d tables for %d configurations" % (len(recs), len(cfgs)))
+        return recs
+    tp = ThreadPoolExecutor(max_workers=3)
+    futures = [tp.submit(run_tlc, cfgs) for cfgs in runs]
+    for fut in futures:
+        recs = fut.result()
         for rec in recs:
             n = replay_table(ctx, rec, S, gal_tools)
             ctx.count(n)
@@ -533,6 +541,7 @@ def run(ctx):
             ctx.sample({"layout": rec["v"], "nx": rec["nx"], "ny": rec["ny"], "g": rec["g"], "family": rec["mode"],
                         "lon_units": rec["ks"][:8], "lat_units": rec["js"][:4],
                         "expected_cells_first_rows": [row[:8] for row in rec["cells"][:4]]})
+    tp.shutdown()
     ctx.exhaustive = False
     ctx.note("tables", ntab)
     ctx.assume("astropy's ICRS<->Galactic rotation is trusted (the Galactic sampler is judged relative to it)")
